@@ -4,8 +4,11 @@
    the faithful one, compared as canonical strings), "absent", "error" (wrong type / unparseable).      *)
 EXTENDS Integers, Sequences, FiniteSets, TLC
 
-Accessors == {"GetAny", "GetString", "GetNumber", "GetObject", "GetList", "GetTime", "GetURL", "GetMediaType"}
-StrClasses == {"str_empty", "str_plain", "str_ctl_only", "str_ctl_mixed", "str_tab_nl", "str_time", "str_url", "str_url_bad", "str_mime", "str_mime_bad"}
+(* "GetMarkup": the class is that of the value under the media type key (the content itself is a plain string) *)
+Accessors == {"GetAny", "GetString", "GetNumber", "GetObject", "GetList", "GetTime", "GetURL", "GetMediaType", "GetMarkup"}
+StrClasses == {"str_empty", "str_plain", "str_ctl_only", "str_ctl_mixed", "str_tab_nl", "str_time", "str_url", "str_url_bad", "str_mime", "str_mime_bad",
+               "str_mime_junk"}   \* a media type followed by something that is neither a parameter nor a token character (",text/html", " x"):
+                                  \* it may be refused or read leniently - then as the media type it starts with
 NumClasses == {"num_zero", "num_small", "num_2_53", "num_big_in_range", "num_neg", "num_frac", "num_ge_2_64", "num_huge"}
 Classes == {"missing", "null", "bool", "arr_empty", "arr_one", "arr_many", "obj"} \cup StrClasses \cup NumClasses
 
@@ -14,7 +17,13 @@ Absentish(c) == c \in {"missing", "null"}
 EmptyString(c) == c \in {"str_empty", "str_ctl_only"}
 
 Allowed(acc, c) ==
-    IF Absentish(c) THEN {"absent"}
+    IF acc = "GetMarkup" THEN
+        \* no media type (absent, null, empty once sanitised): the default applies; a media type of the wrong JSON type or
+        \* one that cannot be parsed is an error, never silently the default; a well-formed one is rendered or unsupported
+        IF Absentish(c) \/ EmptyString(c) THEN {"value"}
+        ELSE IF c \notin StrClasses \/ c \in {"str_mime_bad", "str_plain", "str_time"} THEN {"error"}
+        ELSE {"value", "error"}
+    ELSE IF Absentish(c) THEN {"absent"}
     ELSE CASE acc = "GetAny"    -> {"value"}
            [] acc = "GetString" -> IF c \notin StrClasses THEN {"error"} ELSE IF EmptyString(c) THEN {"absent"} ELSE {"value"}
            [] acc = "GetNumber" -> IF c \notin NumClasses THEN {"error"}
@@ -32,6 +41,7 @@ Allowed(acc, c) ==
 
 (* one observation: outcome, and for "value" the canonical rendering of what was returned and of what the
    JSON holds (exact decimal expansion of the IEEE double for numbers, sanitised text for strings, ...) *)
+(* reading never changes what is read: the object is the same document after every call (`mutated` in the trace) *)
 ObsOK(acc, c, outcome, got, want) ==
     /\ outcome \in Allowed(acc, c)
     /\ outcome = "value" => got = want
